@@ -317,17 +317,26 @@ def run_history(case):
     app = build_app(case, rec_box)
     noise = other_app() if case.get('other_app') else None
     responses = []
+    shared = list(app.config.errors_map.values())
     for k, r in enumerate(case['reqs']):
         if noise is not None:
             noise(k)                   # another application of the same process serves something in between
         responses.append(serve_one(app, r, rec_box, streams))
-    tbs = [tb_owners(e) for e in app.config.errors_map.values()]
+        for e in shared:               # whose exception is the __context__ of a shared error now?
+            c = e.__context__
+            if c is not None and not hasattr(c, '_verif_owner'):
+                try:
+                    c._verif_owner = r['id']
+                except Exception:
+                    pass
+    tbs = [tb_owners(e) for e in shared]
+    ctx = [getattr(e.__context__, '_verif_owner', -1) if e.__context__ is not None else None for e in shared]
     gc.collect()
     alive = sorted({m().rid for m, _ in streams if m() is not None})
     alive_streams = sorted({w().rid for _, w in streams if w() is not None})
     if case.get('retention'):
         responses = responses[-1:]
-    return dict(responses=responses, tb=tbs, alive=alive, alive_streams=alive_streams)
+    return dict(responses=responses, tb=tbs, ctx=ctx, alive=alive, alive_streams=alive_streams)
 
 
 def other_app():
@@ -390,8 +399,9 @@ def run_impl(case):
 def project(obs, case):
     if 'responses' not in obs:
         return obs
+    # what is alive is judged by the oracle (the model's `alive` is the set that MAY be retained)
     out = dict(responses=[dict(events=r['events'], escaped=r['escaped']) for r in obs['responses']],
-               tb=obs['tb'], alive=obs['alive'])         # alive_streams: oracle only
+               tb=obs['tb'], ctx=obs['ctx'])
     return mask_shared(out, case)
 
 
@@ -399,7 +409,7 @@ def mask_shared(out, case):
     """the errors_map instances are class-level: another application's bad bodies re-own their traceback chains,
     so with traffic of another application only the bounds (oracle) are checked, not who exactly is retained"""
     if case.get('other_app'):
-        out = dict(out, tb='masked', alive='masked')
+        out = dict(out, tb='masked', ctx='masked')
     return out
 
 
@@ -407,10 +417,12 @@ def mask_shared(out, case):
 # codec
 # --------------------------------------------------------------------------
 
-BODY_OUTCOME = {     # body class -> ('ok', None) | ('shared', index in errors_map)
-    'ok': ('ok', None), 'okchunk': ('ok', None), 'json_ok': ('ok', None), 'forms_ok': ('ok', None), 'urlenc_ok': ('ok', None),
-    'oversize': ('shared', 1), 'bigfield': ('shared', 1), 'urlenc_big': ('shared', 1),
-    'badchunk': ('shared', 2), 'badjson': ('shared', 2), 'noname': ('shared', 2),
+BODY_OUTCOME = {
+    # body class -> ('ok',) | ('shared', index in errors_map, is _raise called from inside an except block?)
+    'ok': ('ok',), 'okchunk': ('ok',), 'json_ok': ('ok',), 'forms_ok': ('ok',), 'urlenc_ok': ('ok',),
+    'oversize': ('shared', 1, True), 'bigfield': ('shared', 1, True),
+    'urlenc_big': ('shared', 1, False), 'json_big': ('shared', 1, False),      # _get_body_string: no except block around
+    'badchunk': ('shared', 2, True), 'badjson': ('shared', 2, True), 'noname': ('shared', 2, True),
 }
 
 
@@ -428,16 +440,18 @@ def model_case(req):
             text = '%s %s %s %s' % (case['method'].upper(), req_path(case), req.get('qs', ''), ck)
             res = dict(k='ret', o=dict(k='str', s=text))
         else:
-            kind, idx = BODY_OUTCOME[req['body_class']]
+            outcome = BODY_OUTCOME[req['body_class']]
+            kind = outcome[0]
             if kind == 'ok':
                 res = dict(k='ret', o=dict(k='str', s=req['expect']))
                 replaced = reached
             else:
+                idx, inside = outcome[1], outcome[2]
                 _, code, text = SHARED[idx]
                 res = dict(k='raise_http', err=True,
                            r=dict(status=code, headers=[], cookies=[], body=dict(k='str', s=text)))
                 if reached:
-                    raised = [idx]
+                    raised = [(idx, inside)]
         case = dict(case, routing=dict(rt, h=dict(muts=[], res=res)))
     return case, raised, replaced
 
@@ -461,7 +475,7 @@ def enc_req(req):
     return ([req['id'], int(case['method'] == 'HEAD'), int(case['fw']), int(case['json']), int(replaced)]
             + c3.S(raw_path_of(req)) + c3.S(url_repr(req))
             + enc_list(case['before'], c3.enc_hprog) + enc_list(case['after'], c3.enc_hprog) + r
-            + enc_list(raised, lambda k: [k]))
+            + enc_list(raised, lambda k: [k[0], int(k[1])]))
 
 
 def encode(case):
@@ -488,12 +502,12 @@ def decode(out, case):
     if case['kind'] == 'rule':
         return dict(owners=q.list(lambda z: z.int()))
     rs = q.list(lambda z: z.list(c3.dec_event))
-    tbs = q.list(lambda z: z.list(lambda y: y.int()))
-    alive = sorted(set(q.list(lambda z: z.int())))
+    ent = q.list(lambda z: [z.list(lambda y: y.int()), (z.int() if z.bool() else None)])
+    tbs, ctx = [e[0] for e in ent], [e[1] for e in ent]
     resp = [dict(events=ev, escaped=False) for ev in rs]
     if case.get('other_app'):
-        return mask_shared(dict(responses=resp, tb=tbs, alive=alive), case)
-    return dict(responses=resp, tb=tbs, alive=alive)
+        return mask_shared(dict(responses=resp, tb=tbs, ctx=ctx), case)
+    return dict(responses=resp, tb=tbs, ctx=ctx)
 
 
 # --------------------------------------------------------------------------
@@ -520,17 +534,23 @@ def oracle(case, obs):
                 db = next((y for x, y in zip(a['events'] + [None], b['events'] + [None]) if x != y), None)
                 return ('request %d answered differently after this history than by a fresh application: %s vs %s'
                         % (k, str(da)[:160], str(db)[:160]))
-    bound = 1 + len(SHARED)
+    # the property: what stays alive is bounded by a constant independent of the length of the history.
+    # The constant: the last request + per shared errors_map instance the request in its __traceback__ and the
+    # request whose exception is its __context__
+    bound = 1 + 2 * len(SHARED)
     for what, key_ in (('environs', 'alive'), ('input streams', 'alive_streams')):
         if len(obs.get(key_, [])) > bound:
             return '%d %s alive after %d requests (bound %d)' % (len(obs[key_]), what, len(case['reqs']), bound)
-    if not case.get('other_app') and obs.get('tb') != 'masked':
-        allowed = {case['reqs'][-1]['id']} | {o for owners in obs['tb'] for o in owners}
-        extra = [i for i in obs['alive'] if i not in allowed]
-        if extra:
-            return ('the environ of request %s is still alive although it is neither the last request nor in the '
-                    'traceback of a shared error' % extra)
+    if not case.get('other_app'):
+        allowed = {case['reqs'][-1]['id']} | {o for owners in obs['tb'] for o in owners} | {c for c in obs['ctx'] if c is not None}
+        for what, key_ in (('environ', 'alive'), ('input stream', 'alive_streams')):
+            extra = [i for i in obs.get(key_, []) if i not in allowed]
+            if extra:
+                return ('the %s of request %s is still alive although it is neither the last request nor referred to by '
+                        'the traceback or the context of a shared error' % (what, extra))
     for i, owners in enumerate(obs['tb']):
+        if owners == 'm':
+            continue
         if len(set(owners)) > 1 or len(owners) > 1:
             return 'traceback chain of shared error %d holds frames of %d raises' % (i, len(owners))
     return None
@@ -587,6 +607,9 @@ def body_request(rng, rid, cls, secret=None):
     elif cls == 'badjson':
         how = 'json'
         req.update(body=list(('{"token": "%s"' % secret).encode()), ctype='application/json; charset=utf-8')
+    elif cls == 'json_big':
+        how = 'json'
+        req.update(body=list(json.dumps({'token': secret, 'pad': 'x' * MEMFILE}).encode()), ctype='application/json')
     elif cls == 'forms_ok':
         how = 'forms'
         req.update(body=list(_mp(['Content-Disposition: form-data; name="x"\r\n\r\n%s\r\n' % secret,
